@@ -117,7 +117,7 @@ def scenario(max_h: int = 8) -> Any:
                 if shots_:
                     ents.append(dict(shots_[0]))
             sources.append({"kind": kind, "entries": ents, "fail_polls": sorted(fails) if kind != "label" else [],
-                            "live_list": bool(d["live_list"]) and kind != "label", "hook_kind": d["hook_kind"] if kind != "label" else "sync"})
+                            "live_list": bool(d["live_list"]) and kind != "label", "hook_kind": d["hook_kind"] if kind != "label" else "sync", "fail_exc": d["fail_exc"]})
         r = {"base_us": base, "horizon_min": H, "sources": sources, "latencies": d["latencies"], "kick_fail": sorted(d["kick_fail"])}
         if d["dst"]:
             # the scheduler process lives in a DST zone and the run crosses one of its transitions (a few minutes before it, up to inside it)
@@ -142,6 +142,7 @@ def scenario(max_h: int = 8) -> Any:
         "kick_fail": st.one_of(st.just(set()), st.just(set()), st.sets(st.integers(0, 30), max_size=5)),
         "dup_label": st.booleans(),
         "dst": st.one_of(st.none(), st.none(), st.none(), st.tuples(st.sampled_from(["Europe/Berlin", "America/New_York", "Australia/Lord_Howe"]), st.integers(0, 40), st.integers(0, 4))),
+        "fail_exc": st.sampled_from(["message", "message", "bare_timeout", "bare_keyerror", "bare_conn"]),       # what a failing listing raises
         "hook_kind": st.sampled_from(["sync", "sync", "deferred", "awaitable", "future"]),     # what the scripted sources' post_send hands back
         "live_list": st.sampled_from([False, False, True]),     # scripted sources return their own list object and edit it in place in post_send
     }).map(fin)
